@@ -26,11 +26,13 @@ type c13Outer struct {
 }
 
 // rule text: grammar-aware mutations of well-formed rules, plus raw bytes
-func hostileRule(r *gal.Rng) string {
-	base := []string{"required", "exist", "either=1", "botheq=2", "to=1~3", "to=3~1", "oto=a~b", "ge=", "le=x", "gt=99999999999999999999", "lt=-0",
+var hostileBase = []string{"required", "exist", "either=1", "botheq=2", "to=1~3", "to=3~1", "oto=a~b", "ge=", "le=x", "gt=99999999999999999999", "lt=-0",
 		"eq=1.5", "noeq", "in=(a/b)", "in=)a(", "in=(", "in", "include=(x)", "include=()", "phone", "email|", "idcard|m", "year", "year2month=''",
-		"date='/'", "datetime='-, ,:,x'", "datetime=,", "int", "ints=", "ints=''", "float", "re='[", "re='", "re=''", "re='a\\'", "re", "re=a", "ip", "ipv4", "ipv6",
+		"date='/'", "datetime='-, ,:,x'", "datetime=,", "int", "ints=", "ints=''", "float", "re='[", "re='", "re=''", "re='a\\'", "re='a\\", "re='\\d+\\", "re='\\", "re='a\\\\\\", "re", "re=a", "ip", "ipv4", "ipv6",
 		"unique", "json", "prefix=", "suffix='''", "file", "dir", "nosuch", "=", "|", "=|", "to=~", "to=1~2~3", "'", "a,'b", "to='1~2'", "\x00", "说明:", "explain:"}
+
+func hostileRule(r *gal.Rng) string {
+	base := hostileBase
 	switch r.Intn(5) {
 	case 0:
 		return base[r.Intn(len(base))]
@@ -77,18 +79,42 @@ func runC13(c *Ctx) error {
 		n = 9000
 	}
 	var violations []interface{}
-	for i := 0; i < n; i++ {
+	// the directed catalogue first: every hostile rule text on a non-empty string through each entry point
+	type directed struct {
+		entry string
+		rule  string
+	}
+	var dir []directed
+	for _, rule := range hostileBase {
+		for _, e := range []string{"var", "struct", "map", "url"} {
+			dir = append(dir, directed{e, rule})
+		}
+	}
+	for i := 0; i < n+len(dir); i++ {
 		v, vname := hostileValue(r)
 		entry := r.Pick([]string{"struct", "var", "map", "url"})
-		call := &walkCall{Entry: entry, Src: v}
 		nr := r.Range(0, 3)
 		rules := make([]string, nr)
 		for j := range rules {
 			rules[j] = hostileRule(r)
 		}
+		if i < len(dir) {
+			entry, rules, nr = dir[i].entry, []string{dir[i].rule}, 1
+			switch entry {
+			case "var":
+				v, vname = "abc", "string"
+			case "struct":
+				v, vname = &c13T{A: "abc", B: 1}, "struct-A-abc"
+			case "map":
+				v, vname = map[string]string{"a": "abc"}, "map-a-abc"
+			default:
+				v, vname = "http://h/p?a=abc", "url-a-abc"
+			}
+		}
+		call := &walkCall{Entry: entry, Src: v}
 		switch entry {
 		case "struct":
-			if r.Bool() {
+			if r.Bool() || i < len(dir) {
 				call.HasUnsc = true
 				call.Unscoped = map[string]string{"A": strings.Join(rules, ","), "P": hostileRule(r), "L": hostileRule(r), "": hostileRule(r)}
 			}
